@@ -62,6 +62,10 @@ type Case struct {
 	// second parameter of the same operation (pair sweep only)
 	D2 *Decl `json:"decl2,omitempty"`
 	Q2 *Req  `json:"req2,omitempty"`
+	// multi-operation sweep (level "multiop"): the operations of one API, all declaring the
+	// same name in the same location, and the consecutive requests sent to one handler instance
+	Ops   []Decl `json:"ops,omitempty"`
+	Steps []Step `json:"steps,omitempty"`
 }
 
 func (d Decl) in() string {
